@@ -3,5 +3,6 @@ CONSTANT Depth = 3
 CONSTANT Shift = "4294966294"
 CONSTANT Win0 = 2
 CONSTANT Mms = 0
+CONSTANT Side = "client"
 INVARIANT Emit
 CHECK_DEADLOCK FALSE
